@@ -24,7 +24,7 @@ fn main() {
         for line in text.lines() {
             let t = line.trim_start();
             if t.starts_with("// @h") {
-                pending = true;
+                pending = !(t.contains("tier=thorough") && env::var("CARGO_FEATURE_THOROUGH").is_err());
             } else if pending && t.starts_with("pub fn ") {
                 let name = t["pub fn ".len()..].split('(').next().unwrap().trim();
                 table.push_str(&format!("    (\"{name}\", crate::{module}::{name}),\n"));
